@@ -51,6 +51,7 @@ Arity ==
        [] n = "BLMOVE" -> 6
        [] n \in {"RANDOMKEY", "DBSIZE", "MULTI", "EXEC", "DISCARD", "UNWATCH"} -> 1
        [] n \in {"FLUSHDB", "FLUSHALL", "PING", "HELLO", "QUIT"} -> -1
+       [] n = "CLIENT" -> -2
        [] n \in {"GETEX", "MGET", "LPOP", "RPOP", "SRANDMEMBER", "SINTER", "SUNION", "SDIFF", "HRANDFIELD", "DEL", "UNLINK",
                  "EXISTS", "TOUCH", "SORT", "WATCH"} -> -2
        [] n \in {"SET", "MSET", "MSETNX", "LCS", "LPUSH", "RPUSH", "LPUSHX", "RPUSHX", "LPOS", "SADD", "SREM", "SMISMEMBER",
@@ -82,8 +83,12 @@ Flag(S1, S2, nm) ==
        !.conn = [c \in DOMAIN S2.conn |->
           IF \E w \in S2.conn[c].watch : LiveEnt(S1.dbs[w[1]], S1.now, w[2]) # LiveEnt(S2.dbs[w[1]], S2.now, w[2])
           THEN [S2.conn[c] EXCEPT !.cas = TRUE] ELSE S2.conn[c]],
-       !.oid = [i \in DbIds |-> [k \in DOMAIN S2.dbs[i] |->
-                   IF k \notin DOMAIN S1.dbs[i] \/ k \notin DOMAIN S1.oid[i] THEN S1.nid + 1
+       \* (a flush gives the emulator a new database object; watches still refer to the old, untouched one)
+       !.oid = IF Real /\ nm \in {"FLUSHDB", "FLUSHALL"} THEN S1.oid ELSE
+               [i \in DbIds |->
+                  [k \in DOMAIN S2.dbs[i] \cup (DOMAIN S1.oid[i] \ DOMAIN S1.dbs[i]) |->
+                   IF k \notin DOMAIN S2.dbs[i] THEN S1.oid[i][k]              \* object of a flushed database (see above)
+                   ELSE IF k \notin DOMAIN S1.dbs[i] \/ k \notin DOMAIN S1.oid[i] THEN S1.nid + 1
                    ELSE IF S1.dbs[i][k] # S2.dbs[i][k] /\ nm \in Recreating THEN S1.nid + 1
                    ELSE S1.oid[i][k]]],
        !.nid = S1.nid + 1]
@@ -146,6 +151,18 @@ Hello(S, c, a) ==
              THEN SDev([S EXCEPT !.conn[c].proto = v.v], [t |-> "hello", proto |-> v.v], "D_HELLO_ACCEPTS_ANY_VERSION")
         ELSE SOk(S, RErr("*"))
 
+\* CLIENT SETNAME name | GETNAME  (other subcommands are not modelled: reply unspecified, no effect)
+Client(S, c, a) ==
+    IF Len(a) = 0 THEN SOk(S, RErr("ERR"))
+    ELSE IF Is(a[1], "SETNAME") THEN
+         (IF Len(a) # 2 THEN SOk(S, RErr("ERR"))
+          ELSE IF \E i \in 1..Len(a[2]) : a[2][i] < 33 THEN SOk(S, RErr("ERR"))
+          ELSE SOk([S EXCEPT !.conn[c].name = a[2]], ROk))
+    ELSE IF Is(a[1], "GETNAME") THEN
+         (IF Len(a) # 1 THEN SOk(S, RErr("ERR"))
+          ELSE SOk(S, IF S.conn[c].name = <<>> THEN RNil ELSE RBulk(S.conn[c].name)))
+    ELSE SOk(S, RAny)
+
 \* one command outside MULTI (or executed by EXEC)
 Run(S, c, cmd) ==
     LET nm == CmdName(cmd)
@@ -158,6 +175,7 @@ Run(S, c, cmd) ==
           [] nm = "PING" -> Ping(S, a)
           [] nm = "ECHO" -> Echo(S, a)
           [] nm = "HELLO" -> Hello(S, c, a)
+          [] nm = "CLIENT" -> Client(S, c, a)
           [] nm = "UNWATCH" -> IF Len(a) # 0 THEN SOk(S, EArg)
                                ELSE SOk([S EXCEPT !.conn[c].watch = {}, !.conn[c].cas = FALSE, !.conn[c].wid = <<>>], ROk)
           [] OTHER -> SOk(S, RErr("ERR"))
